@@ -956,7 +956,9 @@ def _resolve(self: World, host: Any, port: Any, family: int = 0, type: int = 0) 
         fam = _socket.AF_INET6 if ':' in ip else _socket.AF_INET
         if family not in (0, fam):
             continue
-        sa: Any = (ip, int(port or 0), 0, 0) if fam == _socket.AF_INET6 else (ip, int(port or 0))
+        # glibc truncates a numeric service to 16 bits (htons)
+        pn = int(port or 0) & 0xffff
+        sa: Any = (ip, pn, 0, 0) if fam == _socket.AF_INET6 else (ip, pn)
         res.append((fam, _socket.SOCK_STREAM, 6, '', sa))
     self.resolve_log.append((host, port, 'ok'))
     self.ev(self.ename(), 'getaddrinfo', '%s -> %s' % (host, ','.join(out)))
@@ -978,6 +980,12 @@ def _net_connect(self: World, family: int, host: Any, port: int, timeout: Option
     if (v == 6) != (family == _socket.AF_INET6):
         self.connect_log.append((host, port, 'EAFNOSUPPORT'))
         raise _socket.gaierror(-9, 'Address family for hostname not supported')
+    if v == 6:
+        # the kernel sees the binary address: every spelling of a literal is the same peer
+        import ipaddress
+        host = ipaddress.ip_address(host).compressed
+    if not isinstance(port, int) or not (0 <= port <= 65535):
+        raise OverflowError('connect(): port must be 0-65535.')
     who = self.ename()
 
     def done(outcome: str) -> None:
